@@ -31,9 +31,48 @@ pub fn tick() {
     });
 }
 
-/// Per-thread note of the case being executed (only used in the hang report).
+static TRACK: AtomicBool = AtomicBool::new(false);
+
+/// Keep the per-thread "current case" up to date for every monitor (sanitizer tiers:
+/// the death callback dumps it, so that a report can be tied to an input).
+pub fn track_cases(on: bool) {
+    TRACK.store(on, Ordering::SeqCst);
+    if on {
+        install_death_callback();
+    }
+}
+pub fn tracking() -> bool {
+    TRACK.load(Ordering::Relaxed)
+}
+
+#[cfg(rtcpmon_asan)]
+extern "C" {
+    fn __sanitizer_set_death_callback(cb: extern "C" fn());
+}
+#[cfg(rtcpmon_asan)]
+extern "C" fn on_death() {
+    dump_cases();
+}
+fn install_death_callback() {
+    #[cfg(rtcpmon_asan)]
+    unsafe {
+        __sanitizer_set_death_callback(on_death);
+    }
+}
+
+/// Write the cases currently being executed (one per thread) to $RTCPMON_CASE_DUMP.
+pub fn dump_cases() {
+    if let Ok(path) = std::env::var("RTCPMON_CASE_DUMP") {
+        if let Ok(g) = CURRENT.try_lock() {
+            let body: Vec<String> = g.iter().map(|e| format!("{:?}", e.1)).collect();
+            let _ = std::fs::write(path, format!("{{\"kind\": \"cases-at-death\", \"cases\": [{}]}}\n", body.join(", ")));
+        }
+    }
+}
+
+/// Per-thread note of the case being executed (used in the hang report and the sanitizer dump).
 pub fn note_case(desc: impl FnOnce() -> String) {
-    if !ARMED.load(Ordering::Relaxed) {
+    if !ARMED.load(Ordering::Relaxed) && !tracking() {
         return;
     }
     let id = std::thread::current().id();
